@@ -131,7 +131,19 @@ func genC10Focused(t *rapid.T) Scenario {
 	y := 1 - x
 	w := func() int { return rapid.SampledFrom([]int{0, 30, 150, 500, 1100, 1700}).Draw(t, "fw") }
 	sp := func() int { return rapid.SampledFrom([]int{0, 0, 1, 2, 3}).Draw(t, "fspell") }
-	switch rapid.IntRange(0, 4).Draw(t, "focus") {
+	switch rapid.IntRange(0, 6).Draw(t, "focus") {
+	case 5: // the link to y is slow: the user withdraws the pairing while x's dial is still on its way; y would accept at once
+		sc.AutoAccept[y] = rapid.Bool().Draw(t, "peerAuto")
+		slow := rapid.SampledFrom([]int{150, 400, 900}).Draw(t, "slowMs")
+		revoke := rapid.SampledFrom([]string{"unregister", "cancel"}).Draw(t, "revoke")
+		sc.Ops = []HubOp{{K: "slow", X: x, Y: y, Ms: slow}, {K: "register", X: y, Y: x}, {K: "appear", X: x, Y: y},
+			{K: "register", X: x, Y: y, WaitMs: rapid.SampledFrom([]int{20, 60, 120}).Draw(t, "w6"), Spell: sp()},
+			{K: revoke, X: x, Y: y, WaitMs: slow + 1500, Spell: sp()}}
+	case 6: // the same while a redial after a lost connection is on its way
+		slow := rapid.SampledFrom([]int{400, 900}).Draw(t, "slowMs")
+		sc.Ops = []HubOp{{K: "register", X: x, Y: y}, {K: "register", X: y, Y: x}, {K: "appear", X: x, Y: y, WaitMs: 1200},
+			{K: "slow", X: x, Y: y, Ms: slow}, {K: "cut", X: x, Y: y, WaitMs: rapid.SampledFrom([]int{1050, 1200}).Draw(t, "w7")},
+			{K: rapid.SampledFrom([]string{"unregister", "cancel"}).Draw(t, "revoke"), X: x, Y: y, WaitMs: slow + 1800, Spell: sp()}}
 	case 0: // x asks y, cancels while its application is slow, y approves in that moment
 		sc.SlowAppMs[x] = rapid.SampledFrom([]int{300, 600}).Draw(t, "slow")
 		sc.Ops = []HubOp{{K: "appear", X: x, Y: y}, {K: "register", X: x, Y: y, WaitMs: rapid.SampledFrom([]int{300, 800, 1500}).Draw(t, "w1")},
